@@ -1,6 +1,7 @@
 //! Wasm-side tooling: T4 (regenerate the emitted glue into Coq), T3 probes, C04/C07 harnesses.
 mod abigen;
 mod c04;
+mod c07;
 mod gluegen;
 mod prng;
 
@@ -10,6 +11,7 @@ fn main() {
     let r = match argv[1].as_str() {
         "gluegen" => gluegen::run(&argv[2], &argv[3]),
         "c04" => c04::run(&argv[2..]),
+        "c07" => c07::run(&argv[2..]),
         "abigen" => abigen::run(&argv[2], argv.get(3).map(|s| s.as_str())),
         x => { eprintln!("unknown component {}", x); std::process::exit(2); }
     };
